@@ -8,6 +8,7 @@ import (
 	"io"
 	"reflect"
 	"sort"
+	"sync"
 
 	"github.com/RoaringBitmap/roaring"
 	segment "github.com/blugelabs/bluge_segment_api"
@@ -148,3 +149,7 @@ func VerifStateSeg(seg segment.Segment) string {
 	sort.Ints(fsts)
 	return fmt.Sprintf("mutexFree=%v fsts=%v", free, fsts)
 }
+
+// VerifInterimPool exposes the builder's global pool (identity only) so that the harness can ask
+// the deterministic pool shim whether it currently holds a recycled builder.
+func VerifInterimPool() *sync.Pool { return &interimPool }
